@@ -449,3 +449,47 @@ def gen_malformed_loc(rng, info):
         return rng.choice(HOSTILE_LOCS)
     base = loc_text(("loc", "", "path", gen_path(rng, info, deeper_only=False))) if r < 0.8 else gen_set_arg(rng, info, False)
     return mutate(rng, base)
+
+
+def gen_stdin_case(rng, info, mem=False, hang=None):
+    """hwloc-calc in stdin mode: only options on the command line, 2..6 lines of locations on stdin
+    (empty lines, lines whose tokens all fail to parse, long lines beyond the 64-byte line buffer)."""
+    base = gen_cmdline(rng, info, mem=mem)
+    opts = [it for it in base["ast"] if it[0] == "opt" and it[1] not in ("--cif", "--cpuset-input-format")]
+    args = []
+    for it in opts:
+        args.extend(it[1:])
+    nlines = rng.choice([2, 2, 3, 4, 6])
+    lines = []
+    texts = []
+    for _ in range(nlines):
+        r = rng.random()
+        if r < 0.12:
+            lines.append([])
+            texts.append(rng.choice(["", " ", "   "]))
+            continue
+        nl = rng.choice([1, 1, 2, 3, 3, 8, 14])
+        locs = []
+        while len(locs) < nl:
+            locs += [it for it in gen_cmdline(rng, info, mem=mem)["ast"] if it[0] == "loc"]
+        locs = locs[:nl]
+        toks = [loc_text(it) for it in locs]
+        line_ast = list(locs)
+        if r < 0.35:
+            # some tokens that do not parse (no syntax tree for such a line: compared with the model only)
+            bad = [t for t in (gen_malformed_loc(rng, info) for _ in range(3))
+                   if t and not any(c in t for c in " \n\t\r\x00") and not (hang and hang([t]))
+                   # no absurd bit indexes in set-like tokens ("-9" is the list 2^64-9, "0-4294967295" half a gigabyte of bitmap)
+                   and not (not re.search(r"[:=]", t) and re.search(r"(^|[^0-9])-\d|\d{6}", t))]
+            if r < 0.2:
+                toks = bad or ["zz"]
+            else:
+                for b in bad[:2]:
+                    toks.insert(rng.randrange(len(toks) + 1), b)
+            line_ast = None
+        lines.append(line_ast)
+        sep = rng.choice([" ", " ", "  "])
+        texts.append((" " if rng.random() < 0.1 else "") + sep.join(toks) + (" " if rng.random() < 0.1 else ""))
+    # the last line may lack its newline, unless it is empty (it would not be a line at all)
+    text = "\n".join(texts) + ("\n" if (texts[-1] == "" or rng.random() < 0.85) else "")
+    return {"args": args, "opts": opts, "lines": lines, "line_texts": texts, "stdin": text, "out": base["out"]}
